@@ -25,9 +25,12 @@ package main
 import (
 	"fmt"
 	"go/ast"
+	"go/constant"
 	"go/token"
 	"go/types"
 	"strings"
+
+	"golang.org/x/tools/go/packages"
 )
 
 type httpwirePoolTr struct {
@@ -311,4 +314,356 @@ func (x *hw) httpwireSharedPool(out *strings.Builder) {
 
 func (x *hw) httpwireRound4(out *strings.Builder) {
 	x.httpwireSharedPool(out)
+	x.httpwireDecodeHeader(out)
+}
+
+// ---------------------------------------------------------------- util.DecodeHeader, semantically (round 4)
+//
+//	providers/http/util/request.go  DecodeHeader(h string) (key, value string, err error)
+//	-> decodeHeader : Str → Option (Except HdrErr (Str × Str))      (`none` = the Go code would PANIC: index / slice out of range)
+//
+// Every expression is translated into a total Lean term TOGETHER with the condition under which Go evaluates it without a
+// run-time panic (`h[i]`: 0 ≤ i < len; `h[a:b]`: 0 ≤ a ≤ b ≤ len; `x || y`: y is only evaluated when x is false …); a
+// statement whose condition fails makes the function `none`. Integers are Lean `Int` (`len(h)-1` of an empty string is −1, not 0).
+// Supported forms (anything else makes gen fail): `var x bool|string`, `x = e`, `a, b, c = strings.Cut(s, "<one byte>")` (also as
+// the init of an `if`), `if c { … }` without else, bare `return` (named results), `err = ErrHeaderFormat | ErrEmptyKey`;
+// expressions: len(s), integer / one-byte rune / string literals, s[i], s[a:b], strings.TrimSpace(s), == != < <= > >= + - ! && ||.
+
+type httpwireDH struct {
+	x      *hw
+	p      *packages.Package
+	fd     *ast.FuncDecl
+	names  map[types.Object]string // Go variable -> Lean name (shadowed by `let`)
+	kinds  map[types.Object]string // "str" | "bool" | "err" | "int"
+	key    types.Object
+	value  types.Object
+	err    types.Object
+	errVal map[string]string
+}
+
+func (t *httpwireDH) fail(n ast.Node, format string, a ...any) string {
+	return t.x.failf(t.p, n, "DecodeHeader: "+format, a...)
+}
+
+func httpwireAndG(a, b string) string {
+	if a == "true" {
+		return b
+	}
+	if b == "true" {
+		return a
+	}
+	return "(" + a + " && " + b + ")"
+}
+
+// expr returns (Lean term, definedness condition as a Lean Bool term, kind)
+func (t *httpwireDH) expr(e ast.Expr) (string, string, string) {
+	switch v := e.(type) {
+	case *ast.ParenExpr:
+		return t.expr(v.X)
+	case *ast.BasicLit:
+		switch v.Kind {
+		case token.INT:
+			return "(" + v.Value + " : Int)", "true", "int"
+		case token.CHAR:
+			if tv, ok := t.p.TypesInfo.Types[e]; ok && tv.Value != nil {
+				if n, ok := constant.Int64Val(tv.Value); ok && n >= 0 && n < 256 {
+					return fmt.Sprintf("(%d : Nat)", n), "true", "byte"
+				}
+			}
+		case token.STRING:
+			if tv, ok := t.p.TypesInfo.Types[e]; ok && tv.Value != nil {
+				return "(" + hwLeanBytes(constant.StringVal(tv.Value)) + " : Str)", "true", "str"
+			}
+		}
+	case *ast.Ident:
+		if o := t.p.TypesInfo.Uses[v]; o != nil {
+			if n, ok := t.names[o]; ok {
+				return n, "true", t.kinds[o]
+			}
+		}
+	case *ast.CallExpr:
+		if id, ok := v.Fun.(*ast.Ident); ok && id.Name == "len" && len(v.Args) == 1 {
+			s, g, k := t.expr(v.Args[0])
+			if k == "str" {
+				return "(" + s + ".length : Int)", g, "int"
+			}
+		}
+		if hwCallee(t.p, v) == "strings.TrimSpace" && len(v.Args) == 1 {
+			s, g, k := t.expr(v.Args[0])
+			if k == "str" {
+				return "(trim " + s + ")", g, "str"
+			}
+		}
+	case *ast.IndexExpr:
+		s, gs, ks := t.expr(v.X)
+		i, gi, ki := t.expr(v.Index)
+		if ks == "str" && ki == "int" {
+			g := httpwireAndG(httpwireAndG(gs, gi), "(decide (0 ≤ "+i+") && decide ("+i+" < ("+s+".length : Int)))")
+			return "(" + s + ".getD (" + i + ").toNat 0)", g, "byte"
+		}
+	case *ast.SliceExpr:
+		if v.Slice3 || v.Low == nil || v.High == nil {
+			break
+		}
+		s, gs, ks := t.expr(v.X)
+		a, ga, ka := t.expr(v.Low)
+		b, gb, kb := t.expr(v.High)
+		if ks == "str" && ka == "int" && kb == "int" {
+			g := httpwireAndG(httpwireAndG(gs, httpwireAndG(ga, gb)),
+				"(decide (0 ≤ "+a+") && decide ("+a+" ≤ "+b+") && decide ("+b+" ≤ ("+s+".length : Int)))")
+			return "((" + s + ".drop (" + a + ").toNat).take ((" + b + ").toNat - (" + a + ").toNat))", g, "str"
+		}
+	case *ast.UnaryExpr:
+		if v.Op == token.NOT {
+			s, g, k := t.expr(v.X)
+			if k == "bool" {
+				return "(!" + s + ")", g, "bool"
+			}
+		}
+	case *ast.BinaryExpr:
+		l, gl, kl := t.expr(v.X)
+		r, gr, kr := t.expr(v.Y)
+		switch v.Op {
+		case token.LOR:
+			if kl == "bool" && kr == "bool" {
+				g := gl
+				if gr != "true" {
+					g = httpwireAndG(gl, "("+l+" || "+gr+")")
+				}
+				return "(" + l + " || " + r + ")", g, "bool"
+			}
+		case token.LAND:
+			if kl == "bool" && kr == "bool" {
+				g := gl
+				if gr != "true" {
+					g = httpwireAndG(gl, "(!"+l+" || "+gr+")")
+				}
+				return "(" + l + " && " + r + ")", g, "bool"
+			}
+		case token.EQL, token.NEQ:
+			if kl == kr && (kl == "str" || kl == "byte" || kl == "int" || kl == "bool") {
+				op := map[token.Token]string{token.EQL: "==", token.NEQ: "!="}[v.Op]
+				return "(" + l + " " + op + " " + r + ")", httpwireAndG(gl, gr), "bool"
+			}
+		case token.LSS, token.LEQ, token.GTR, token.GEQ:
+			if kl == "int" && kr == "int" {
+				op := map[token.Token]string{token.LSS: "<", token.LEQ: "≤", token.GTR: ">", token.GEQ: "≥"}[v.Op]
+				return "decide (" + l + " " + op + " " + r + ")", httpwireAndG(gl, gr), "bool"
+			}
+		case token.ADD, token.SUB:
+			if kl == "int" && kr == "int" {
+				return "(" + l + " " + v.Op.String() + " " + r + ")", httpwireAndG(gl, gr), "int"
+			}
+		}
+	}
+	return t.fail(e, "expression %s", hwSrc(t.p, e)), "true", "?"
+}
+
+func (t *httpwireDH) guarded(ind, g, rest string) string {
+	if g == "true" {
+		return rest
+	}
+	return ind + "if !" + g + " then none else\n" + rest
+}
+
+func (t *httpwireDH) leanType(kind string) string {
+	return map[string]string{"str": "Str", "bool": "Bool", "int": "Int", "err": "Option HdrErr"}[kind]
+}
+
+// assign translates one assignment statement (possibly the tuple form of strings.Cut) followed by `rest`
+func (t *httpwireDH) assign(v *ast.AssignStmt, ind string, rest func() string) string {
+	if v.Tok != token.ASSIGN && v.Tok != token.DEFINE {
+		return ind + t.fail(v, "assignment %s", hwSrc(t.p, v))
+	}
+	obj := func(e ast.Expr) types.Object {
+		id, ok := e.(*ast.Ident)
+		if !ok {
+			return nil
+		}
+		if id.Name == "_" {
+			return nil
+		}
+		if o := t.p.TypesInfo.Defs[id]; o != nil {
+			return o
+		}
+		return t.p.TypesInfo.Uses[id]
+	}
+	if len(v.Lhs) == 3 && len(v.Rhs) == 1 {
+		call, ok := v.Rhs[0].(*ast.CallExpr)
+		if ok && hwCallee(t.p, call) == "strings.Cut" && len(call.Args) == 2 {
+			s, gs, ks := t.expr(call.Args[0])
+			sep := ""
+			if tv, ok := t.p.TypesInfo.Types[call.Args[1]]; ok && tv.Value != nil && tv.Value.Kind() == constant.String {
+				sep = constant.StringVal(tv.Value)
+			}
+			if ks != "str" || len(sep) != 1 {
+				return ind + t.fail(v, "strings.Cut with %s", hwSrc(t.p, call))
+			}
+			c := fmt.Sprintf("(cut %s %d)", s, sep[0])
+			out := ""
+			terms := []string{
+				"(match " + c + " with | some p => p.1 | none => " + s + ")",
+				"(match " + c + " with | some p => p.2 | none => [])",
+				c + ".isSome"}
+			kinds := []string{"str", "str", "bool"}
+			// all three are computed from the OLD value of s: bind them to fresh names first
+			for i := range terms {
+				out += fmt.Sprintf("%slet cut%d : %s := %s\n", ind, i, t.leanType(kinds[i]), terms[i])
+			}
+			for i, l := range v.Lhs {
+				o := obj(l)
+				if o == nil {
+					continue
+				}
+				if _, ok := t.names[o]; !ok {
+					t.names[o] = o.Name()
+				}
+				t.kinds[o] = kinds[i]
+				out += fmt.Sprintf("%slet %s : %s := cut%d\n", ind, t.names[o], t.leanType(kinds[i]), i)
+			}
+			return t.guarded(ind, gs, out+rest())
+		}
+	}
+	if len(v.Lhs) == 1 && len(v.Rhs) == 1 {
+		o := obj(v.Lhs[0])
+		if o != nil {
+			if o == t.err {
+				name := hwSrc(t.p, v.Rhs[0])
+				if ev, ok := t.errVal[name]; ok {
+					return ind + "let " + t.names[o] + " : Option HdrErr := some " + ev + "\n" + rest()
+				}
+				return ind + t.fail(v, "error value %s", name)
+			}
+			term, g, k := t.expr(v.Rhs[0])
+			if _, ok := t.names[o]; !ok {
+				t.names[o] = o.Name()
+			}
+			if kk, ok := t.kinds[o]; ok && kk != k {
+				return ind + t.fail(v, "kind of %s", hwSrc(t.p, v))
+			}
+			t.kinds[o] = k
+			if ty := t.leanType(k); ty != "" {
+				return t.guarded(ind, g, ind+"let "+t.names[o]+" : "+ty+" := "+term+"\n"+rest())
+			}
+		}
+	}
+	return ind + t.fail(v, "assignment %s", hwSrc(t.p, v))
+}
+
+func (t *httpwireDH) ret(ind string) string {
+	return ind + "some (match " + t.names[t.err] + " with | none => .ok (" + t.names[t.key] + ", " + t.names[t.value] + ") | some e => .error e)"
+}
+
+func (t *httpwireDH) block(list []ast.Stmt, ind string) string {
+	if len(list) == 0 {
+		return ind + t.fail(t.fd, "a path without return")
+	}
+	s, rest := list[0], list[1:]
+	switch v := s.(type) {
+	case *ast.DeclStmt:
+		gd, ok := v.Decl.(*ast.GenDecl)
+		if !ok || gd.Tok != token.VAR {
+			break
+		}
+		out := ""
+		for _, sp := range gd.Specs {
+			vs, ok := sp.(*ast.ValueSpec)
+			if !ok || len(vs.Values) != 0 {
+				return ind + t.fail(s, "declaration %s", hwSrc(t.p, s))
+			}
+			for _, id := range vs.Names {
+				o := t.p.TypesInfo.Defs[id]
+				bt, ok := o.Type().Underlying().(*types.Basic)
+				if !ok {
+					return ind + t.fail(s, "declaration %s", hwSrc(t.p, s))
+				}
+				switch {
+				case bt.Info()&types.IsBoolean != 0:
+					t.names[o], t.kinds[o] = id.Name, "bool"
+					out += ind + "let " + id.Name + " : Bool := false\n"
+				case bt.Info()&types.IsString != 0:
+					t.names[o], t.kinds[o] = id.Name, "str"
+					out += ind + "let " + id.Name + " : Str := []\n"
+				default:
+					return ind + t.fail(s, "declaration %s", hwSrc(t.p, s))
+				}
+			}
+		}
+		return out + t.block(rest, ind)
+	case *ast.AssignStmt:
+		return t.assign(v, ind, func() string { return t.block(rest, ind) })
+	case *ast.ReturnStmt:
+		if len(v.Results) == 0 {
+			return t.ret(ind)
+		}
+	case *ast.IfStmt:
+		if v.Else != nil {
+			break
+		}
+		cont := func() string {
+			c, g, k := t.expr(v.Cond)
+			if k != "bool" {
+				return ind + t.fail(v.Cond, "condition %s", hwSrc(t.p, v.Cond))
+			}
+			saved := map[types.Object]string{}
+			for k2, v2 := range t.kinds {
+				saved[k2] = v2
+			}
+			thenList := append(append([]ast.Stmt{}, v.Body.List...), rest...)
+			if httpwireReturns(v.Body.List) {
+				thenList = v.Body.List
+			}
+			a := t.block(thenList, ind+"  ")
+			t.kinds = saved
+			b := t.block(rest, ind+"  ")
+			return t.guarded(ind, g, ind+"if "+c+" then\n"+a+"\n"+ind+"else\n"+b)
+		}
+		if v.Init != nil {
+			as, ok := v.Init.(*ast.AssignStmt)
+			if !ok {
+				break
+			}
+			return t.assign(as, ind, cont)
+		}
+		return cont()
+	}
+	return ind + t.fail(s, "statement %s", hwSrc(t.p, s))
+}
+
+func (x *hw) httpwireDecodeHeader(out *strings.Builder) {
+	p := x.pkgs["components/providers/http/util"]
+	fd := hwFunc(p, "", "DecodeHeader")
+	if fd == nil || fd.Type.Params == nil || len(fd.Type.Params.List) != 1 || len(fd.Type.Params.List[0].Names) != 1 ||
+		fd.Type.Results == nil {
+		x.failf(p, nil, "util.DecodeHeader(h string) (key, value string, err error) not found")
+		return
+	}
+	t := &httpwireDH{x: x, p: p, fd: fd, names: map[types.Object]string{}, kinds: map[types.Object]string{},
+		errVal: map[string]string{"ErrHeaderFormat": "HdrErr.format", "ErrEmptyKey": "HdrErr.emptyKey"}}
+	h := p.TypesInfo.Defs[fd.Type.Params.List[0].Names[0]]
+	t.names[h], t.kinds[h] = "h", "str"
+	var res []types.Object
+	for _, f := range fd.Type.Results.List {
+		for _, id := range f.Names {
+			res = append(res, p.TypesInfo.Defs[id])
+		}
+	}
+	if len(res) != 3 {
+		x.failf(p, fd, "DecodeHeader: three named results expected")
+		return
+	}
+	t.key, t.value, t.err = res[0], res[1], res[2]
+	t.names[t.key], t.kinds[t.key] = "key", "str"
+	t.names[t.value], t.kinds[t.value] = "value", "str"
+	t.names[t.err], t.kinds[t.err] = "err", "err"
+	// the error values are what their names say
+	for name := range t.errVal {
+		if o := p.Types.Scope().Lookup(name); o == nil {
+			x.failf(p, fd, "DecodeHeader: %s not found", name)
+			return
+		}
+	}
+	body := "  let key : Str := []\n  let value : Str := []\n  let err : Option HdrErr := none\n" + t.block(fd.Body.List, "  ")
+	out.WriteString("/-- regenerated from `components/providers/http/util/request.go` func `DecodeHeader`, statement by statement; `none` = the Go\ncode would panic (index or slice out of range), `some (.error e)` = it returns ErrHeaderFormat / ErrEmptyKey, `some (.ok (key, value))`\nits results; `cut` / `trim` stand for strings.Cut (one-byte separator) / strings.TrimSpace -/\n")
+	out.WriteString("def decodeHeader (h : Str) : Option (Except HdrErr (Str × Str)) :=\n" + body + "\n\n")
 }
